@@ -629,7 +629,26 @@ func CheckC17(p *Pkg, e *Env, r *res.Result) {
 			}
 			r.Label("state:" + state)
 			if fail != "" {
-				f := res.Failure{Property: "C17", Kind: "cors:" + state, Clause: "cors",
+				kind := "cors:" + state
+				if state == "no-cors" && p.Cfg.Cors && !handlerSet && other.Dispatch != nil && other.Dispatch.Template != tpl && len(in.Calls) == 1 && in.Calls[0].Op.Template == other.Dispatch.Template {
+					// the preflight of a path without OPTIONS was served by a less literal
+					// template's own OPTIONS operation; where the two templates part decides
+					// which code path did it
+					ts, os := strings.Split(tpl, "/"), strings.Split(other.Dispatch.Template, "/")
+					div := len(ts) - 1
+					for i := range ts {
+						if i < len(os) && ts[i] != os[i] {
+							div = i
+							break
+						}
+					}
+					if div == len(ts)-1 {
+						kind = "cors:no-cors:served-by-sibling-options:last-segment"
+					} else {
+						kind = "cors:no-cors:served-by-sibling-options:earlier-segment"
+					}
+				}
+				f := res.Failure{Property: "C17", Kind: kind, Clause: "cors",
 					Detail: fmt.Sprintf("path %s (cors=%v, handler set=%v, own OPTIONS=%v) expected methods %v headers %v: %s", tpl, p.Cfg.Cors, handlerSet, ownOptions, wantM, wantH, fail),
 					Replay: p.SpecReplay(map[string]any{"request.txt": "OPTIONS " + path})}
 				if !FailOrKnown(p, e, r, f) {
